@@ -1,11 +1,11 @@
 #!/bin/bash
-# confirm_seed.sh <prop> <n> : confirms seed /tmp/seed/<prop>/out/<n> in a scratch worktree of /repo:
+# confirm_seed.sh <prop> <n> [source root] [target n] : confirms seed /tmp/seed/<prop>/out/<n> in a scratch worktree of /repo:
 # (1) builds with the patch, (2) existing suite passes with the patch, (3) demo fails with the patch, (4) demo passes without.
 # On success the seed is stored as /verif/seeded/<prop>-<n>/ (patch.diff, demo, notes.md, confirm.log).
-prop=$1; n=$2
-src=/tmp/seed/$prop/out/$n
+prop=$1; n=$2; root=${3:-/tmp/seed}; tn=${4:-$n}
+src=$root/$prop/out/$n
 export GOFLAGS=-mod=mod GOPROXY=off
-wt=$(mktemp -d /var/tmp/confirm-$prop-$n-XXXX)
+wt=$(mktemp -d /var/tmp/confirm-$prop-$tn-XXXX)
 log=$wt.log
 trap "git -C /repo worktree remove --force $wt >/dev/null 2>&1; rm -rf $wt" EXIT
 git -C /repo worktree add --detach $wt HEAD -q || exit 2
@@ -30,12 +30,12 @@ if go test -vet=off -count=1 -timeout 300s -run "^($tests)\$" ./$pkgdir/ > demo_
 echo "RESULT: confirmed"
 } > $log 2>&1
 r=$(grep "^RESULT" $log)
-echo "$prop-$n: $r"
+echo "$prop-$tn: $r"
 if [ "$r" = "RESULT: confirmed" ]; then
-  d=/verif/seeded/$prop-$n; mkdir -p $d
+  d=/verif/seeded/$prop-$tn; mkdir -p $d
   cp $src/patch.diff $d/; cp $demos $d/; [ -f $src/notes.md ] && cp $src/notes.md $d/; cp $log $d/confirm.log
   echo "$pkgdir" > $d/demo_pkg.txt
 else
-  mkdir -p /var/tmp/seed-rejected; cp $log /var/tmp/seed-rejected/$prop-$n.log
+  mkdir -p /var/tmp/seed-rejected; cp $log /var/tmp/seed-rejected/$prop-$tn.log
 fi
 rm -f $log
